@@ -57,7 +57,10 @@ OffsetsOf(bufs) == LET P == PrefixSums([k \in 1..Len(bufs) |-> Len(bufs[k])])
 (* and of the later save of the same document to a healthy sink:             *)
 (*   lt.res  "ok"|"err"|"panic"|"none",  lt.load "ok"|"err"|"panic"|"none",  *)
 (*   lt.same  the later file loads to the same content,                      *)
-(*   lt.valid its cross-reference entries point at their objects             *)
+(*   lt.valid its cross-reference entries point at their objects,            *)
+(*   lt.strict the later file loads to the SAME Document as the save of a     *)
+(*            fresh clone does (object table, max_id and trailer compared      *)
+(*            with nothing left out): the failed save left no trace            *)
 (***************************************************************************)
 NoPanicObs(o)     == o.result # "panic"
 ErrSurfacesObs(o) == o.failed => o.result = "err"
@@ -66,7 +69,7 @@ NoSpuriousObs(o)  == ~o.failed => o.result = "ok"
 \* ... with exactly the bytes of the complete output (hence the same xref offsets)
 ChunkFreeObs(o)   == o.result = "ok" => (o.isprefix /\ o.dlen = o.n)
 PrefixObs(o)      == o.isprefix /\ o.dlen <= o.n
-LaterObs(o, lt)   == o.result = "err" => (lt.res = "ok" /\ lt.load = "ok" /\ lt.valid /\ lt.same)
+LaterObs(o, lt)   == o.result = "err" => (lt.res = "ok" /\ lt.load = "ok" /\ lt.valid /\ lt.same /\ lt.strict)
 
 \* "ok" or the name of the first clause that fails
 Verdict(o, lt) ==
@@ -78,11 +81,46 @@ Verdict(o, lt) ==
     ELSE IF o.result = "err" /\ lt.res # "ok" THEN "later-save-" \o lt.res
     ELSE IF o.result = "err" /\ lt.load # "ok" THEN "later-load-" \o lt.load
     ELSE IF o.result = "err" /\ ~lt.valid THEN "later-file-invalid"
-    ELSE IF ~LaterObs(o, lt) THEN "later-content-differs"
+    ELSE IF o.result = "err" /\ ~lt.same THEN "later-content-differs"
+    \* same objects and trailer entries, but the cross-reference bookkeeping (number of the cross-reference
+    \* stream, Size, Index, max_id) is not that of a fresh clone's save: the failed save changed the document
+    ELSE IF ~LaterObs(o, lt) THEN "later-bookkeeping-differs"
     ELSE "ok"
 
-NoLater   == [res |-> "none", load |-> "none", same |-> FALSE, valid |-> FALSE]
-GoodLater == [res |-> "ok", load |-> "ok", same |-> TRUE, valid |-> TRUE]
+NoLater   == [res |-> "none", load |-> "none", same |-> FALSE, valid |-> FALSE, strict |-> FALSE]
+GoodLater == [res |-> "ok", load |-> "ok", same |-> TRUE, valid |-> TRUE, strict |-> TRUE]
+
+\* Two saves of ONE document object to two sinks that chunk differently and never fail: both succeed, the
+\* first writes the complete output, and so does the second ("the bytes written do not depend on how the
+\* sink splits writes": they depend on the document only, and a save does not change it).
+\*   t.res1, t.res2 results;  t.eq1 first output = reference;  t.same2 / t.strict2 / t.valid2 as for `later`
+TwiceVerdict(t) ==
+    IF t.res1 = "panic" \/ t.res2 = "panic" THEN "panic"
+    ELSE IF t.res1 # "ok" THEN "chunking-error"
+    ELSE IF ~t.eq1 THEN "bytes-differ"
+    ELSE IF t.res2 # "ok" THEN "second-save-" \o t.res2
+    ELSE IF t.load2 # "ok" THEN "second-save-load-" \o t.load2
+    ELSE IF ~t.valid2 THEN "second-save-file-invalid"
+    ELSE IF ~t.same2 THEN "second-save-content-differs"
+    ELSE IF ~t.strict2 THEN "second-save-bookkeeping-differs"
+    ELSE "ok"
+
+\* Documents at the numeric limit of the object number (highest number 2^32 - 2, which the loader accepts).
+\* A writer may refuse such a document (Err on every sink, healthy or not) or write it; it may not panic, not
+\* answer a sink failure with success, and not report success for a file that cannot be loaded.
+\*   m.ref   result of saving a fresh clone to a healthy sink, m.refload of loading that output ("none" if no output)
+\*   m.failed the sink of THIS run failed, m.result its result
+\*   m.later, m.laterload  the later save of the same object to a healthy sink after a failed run, and its load
+LimitVerdict(m) ==
+    IF m.result = "panic" THEN "panic"
+    ELSE IF m.result = "crash" THEN "abort"
+    ELSE IF m.result = "hang" \/ m.ref = "hang" THEN "timeout"          \* not judged (a loop over 2^32 numbers is slow, not wrong)
+    ELSE IF m.failed /\ m.result # "err" THEN "err-not-surfaced"
+    ELSE IF ~m.failed /\ m.result = "ok" /\ m.refload # "ok" THEN "success-for-unloadable-file"
+    ELSE IF ~m.failed /\ m.result # m.ref THEN "chunking-error"
+    ELSE IF m.failed /\ m.ref # "err" /\ m.later # "ok" THEN "later-save-" \o m.later
+    ELSE IF m.failed /\ m.ref # "err" /\ m.laterload # "ok" THEN "later-load-" \o m.laterload
+    ELSE "ok"
 
 \* what the declarative layer predicts for a sink schedule (sequence of responses): the save fails
 \* iff some response is a failure
